@@ -20,11 +20,15 @@ Definition n_scripts : N := 4.
 Definition n_init : N := 5.          (* "__init__" *)
 Definition n_all : N := 900.         (* "__all__" *)
 Definition is_under (x : N) : bool := (900 <=? x)%N.   (* names starting with "_" have ids >= 900 *)
+(* functions named q1, q2 (ids 250..259) are defined as `def q(p):` - one required positional parameter, no **kw;
+   every other function is `def f( **kw ):`.  The generated programs only ever call with () , (1) or (zz=1). *)
+Definition needs_arg (f : N) : bool := (250 <=? f)%N && (f <? 260)%N.
 
 (* ---------- syntax ---------- *)
 Inductive expr :=
   | ELit (z : Z) | ENone | ENames (l : list N)
-  | EName (x : N) | EAddLit (x : N) (z : Z) | EAttr (m x : N).
+  | EName (x : N) | EAddLit (x : N) (z : Z) | EAttr (m x : N)
+  | ECtx.                                            (* pyscript.get_global_ctx() *)
 Inductive cref := CName (f : N) | CAttr (m f : N).
 Inductive stmt :=
   | SAssign (x : N) (e : expr)                       (* x = e *)
@@ -40,13 +44,15 @@ Inductive stmt :=
   | SFrom (m : path) (level : nat) (items : list (N * N))   (* from [.]*m import name as bind, ... *)
   | SFromStar (m : path) (level : nat)               (* from [.]*m import * *)
   | SFromDot (level : nat) (items : list (N * N))    (* from . import name as bind, ... *)
-  | SSetCtx (c : path).                              (* pyscript.set_global_ctx("c") *)
+  | SSetCtx (c : path)                               (* pyscript.set_global_ctx("c") *)
+  | SCallBad (c : cref).                             (* f(1) / q(zz=1): a call whose argument list cannot be bound *)
 
 (* ---------- values, tables ---------- *)
 Inductive val :=
   | VInt (z : Z) | VNone | VNames (l : list N)
   | VFun (c : nat) (f : N) (gl : list N) (body : list stmt)   (* remembers its defining context *)
-  | VMod (c : nat).                                           (* module object of context c *)
+  | VMod (c : nat)                                            (* module object of context c *)
+  | VStr (p : path).                                          (* a context name (result of get_global_ctx) *)
 Definition table := list (N * val).
 
 Fixpoint tget (t : table) (x : N) : option val :=
@@ -201,6 +207,7 @@ Definition eval_expr (w : world) (e : evst) (ex : expr) : option val :=
   | EName x => lookup_name w e x
   | EAddLit x z => match lookup_name w e x with Some (VInt a) => Some (VInt (a + z)) | _ => None end
   | EAttr m x => match lookup_name w e m with Some (VMod c) => tget (tab w c) x | _ => None end
+  | ECtx => Some (VStr (match ctx_of w (e_gctx e) with Some g => g_name g | None => [] end))
   end.
 Definition resolve_cref (w : world) (e : evst) (c : cref) : option val :=
   match c with CName f => lookup_name w e f | CAttr m f => eval_expr w e (EAttr m f) end.
@@ -231,7 +238,8 @@ Definition leave_call (e : evst) (c : nat) (e' : evst) : evst :=
 
 Definition call_with (blk : world -> evst -> list stmt -> res) (w : world) (e : evst) (v : val) : res :=
   match v with
-  | VFun c _ gl body =>
+  | VFun c f gl body =>
+      if needs_arg f then (w, e, OExc) else      (* argument binding (l.707-763) fails before the context switch *)
       let fi := {| fi_gl := gl; fi_ln := local_names gl body |} in
       let '(w', e', o) := blk w (enter_call e c fi) body in
       match o with
@@ -457,6 +465,7 @@ Definition stmt_with (cfg : deviations) (ex : world -> evst -> stmt -> res) (w :
       | Some c => (bump_nsw w, set_global_ctx e c, ONormal)
       | None => (w, e, OExc)
       end
+  | SCallBad c => (w, e, OExc)      (* NameError/AttributeError while resolving, or TypeError while binding: no state change *)
   end.
 
 Fixpoint exec (cfg : deviations) (fuel : nat) (w : world) (e : evst) (s : stmt) {struct fuel} : res :=
